@@ -14,6 +14,7 @@ import (
 	"time"
 
 	"github.com/atlassian/gostatsd"
+	"github.com/atlassian/gostatsd/internal/verifhook"
 	"github.com/atlassian/gostatsd/pkg/statsd"
 )
 
@@ -88,7 +89,11 @@ type c11Op struct {
 
 func (c11) Run(e *Env) {
 	e.ProbeDecl("parked-metrics", "parked-events", "both-parked-for-one-source", "lookup-success", "lookup-failed", "lookup-zero-tag-instance", "hit-with-instance", "negative-hit", "empty-source",
-		"emit-while-parked", "backlog-of-sources", "downstream-held", "wait-for-events-while-parked", "same-source-again-after-completion")
+		"emit-while-parked", "backlog-of-sources", "downstream-held", "wait-for-events-while-parked", "same-source-again-after-completion", "handover-after-cache-changed-or-lookup-completed")
+	if e.Chance(1, 5) {
+		c11Integrated(e) // the real instance cache and a scripted provider instead of the stub cache
+		return
+	}
 	cache := &stubCache{table: map[gostatsd.Source]peekEntry{}, sink: make(chan gostatsd.Source), info: make(chan gostatsd.InstanceInfo)}
 	down := &RecHandler{Env: e}
 	gated := e.Chance(1, 3)
@@ -98,6 +103,16 @@ func (c11) Run(e *Env) {
 	}
 	st := NewRecStatser()
 	ch := statsd.NewCloudHandler(cache, down)
+	// a third of the runs arm the H1 yield sites between the cache Peek and the hand-over of the
+	// cache-missing part to the stage's loop: the cache content and the lookups may change in between
+	yg := &yieldGate{gate: NewGate("yield"), anyObj: true, sites: map[string]bool{}}
+	if e.Chance(1, 3) {
+		yg.sites["cloudhandler.metrics.before-handover"] = true
+		yg.sites["cloudhandler.event.before-handover"] = true
+		verifhook.SetYield(yg.fn)
+		defer verifhook.SetYield(nil)
+		defer yg.gate.Open(nil)
+	}
 	ctx, cancel := context.WithCancel(context.Background())
 	var wg sync.WaitGroup
 	wg.Add(2)
@@ -467,8 +482,16 @@ func (c11) Run(e *Env) {
 		if gated {
 			mapP, evP = down.MapGate.Parked(), down.EvGate.Parked()
 		}
-		w := []int{6 * minInt(1, len(idle)), 2, 3 * minInt(1, len(needLookup)), 4 * len(outs), 2, 3 * (len(mapP) + len(evP)), 1}
+		yP := yg.gate.Parked()
+		w := []int{6 * minInt(1, len(idle)), 2, 3 * minInt(1, len(needLookup)), 4 * len(outs), 2, 3 * (len(mapP) + len(evP)), 1, 3 * len(yP)}
 		switch e.Weighted("c11", w) {
+		case 7: // a dispatcher parked between Peek and hand-over proceeds
+			p := yP[e.Choose("yield", len(yP))]
+			e.Probe("handover-after-cache-changed-or-lookup-completed")
+			e.Fault("dispatcher-preempted-before-handover")
+			e.Overlap = true
+			e.Event("release %s", p.Key)
+			yg.gate.Release(p, nil)
 		case 0: // new op on an idle dispatcher, with the cache content of this instant
 			d := idle[e.Choose("dispatcher", len(idle))]
 			op := genOp()
@@ -625,6 +648,10 @@ func (c11) Run(e *Env) {
 	// settle: no new work; release everything; every lookup is accepted and answered
 	for i := 0; ; i++ {
 		quiesce()
+		if ps := yg.gate.Parked(); len(ps) > 0 {
+			yg.gate.Release(ps[0], nil)
+			continue
+		}
 		if gated && heldDown() > 0 {
 			for _, p := range down.MapGate.Parked() {
 				down.MapGate.Release(p, nil)
